@@ -553,6 +553,23 @@ def check_measure_encodings(ctx, rule: str):
             ctx.ob(rule, construct(fi, "no unit-dependent tolerance / rounding, no one-sided order statistic and no one-sided test of a signed quantity of the feature"), True, loc(fi))
 
 
+def check_share_denominator(ctx, rule: str):
+    """The gate measures (share of the mode, of missing values, of outliers) are shares of *all* rows
+    of the feature, the quantity the thresh_* parameters are documented for: the mean of a boolean mask
+    over x.  `value_counts(normalize=True)` drops missing values unless dropna=False, so its shares are
+    taken over the filled rows only and a feature with missing values is refused although its mode covers
+    less than the threshold of the rows."""
+    repo = ctx.repo
+    n = 0
+    for fi in exported(repo, MEASURES_INIT, "_measure"):
+        bad = [c for c in walk_no_nested(fi.node) if isinstance(c, ast.Call) and call_name(c) == "value_counts" and kwarg(c, "normalize") is not None
+               and const_value(kwarg(c, "normalize")) is True and not (kwarg(c, "dropna") is not None and const_value(kwarg(c, "dropna")) is False)]
+        n += 1
+        ctx.ob(rule, construct(fi, "shares are taken over all rows of the feature (no value_counts(normalize=True) without dropna=False)"), not bad, loc(fi, bad[0] if bad else None),
+               "" if not bad else f"`{short(bad[0], 60)}` normalises by the number of non-missing rows: the share (and the threshold test on it) changes with the missing-value rate")
+    return n
+
+
 def check_filter_wrappers(ctx, rule: str):
     """A named filter applies the statistic it is named after: cramerv_filter -> cramerv_measure,
     tschuprowt_filter -> tschuprowt_measure, spearman_filter -> 'spearman', pearson_filter -> 'pearson'."""
